@@ -217,6 +217,21 @@ pub fn eval_input(i: &Input, obs: &mut Obs) -> Result<(), Fail> {
         let x = it.next();
         ensure!(x.is_none(), "encoder-resumes", "encode_streaming returned {:?} on call {} after its end", x, k + 1);
     }
+    // every other entry point of the iterator encoder: size_hint() in every state, and the std consumers
+    // that call it on the caller's behalf while growing (collect, extend)
+    let mut it = sml_rs::transport::Encoder::new(p.iter().copied());
+    let mut n = 0;
+    loop {
+        let _ = it.size_hint();
+        if it.next().is_none() || n > cap_steps {
+            break;
+        }
+        n += 1;
+    }
+    let _ = it.size_hint();
+    let _: Vec<u8> = encode_streaming(p).take(cap_steps + 1).collect();
+    let mut grown: Vec<u8> = Vec::with_capacity(p.len() % 7);
+    grown.extend(encode_streaming(p.to_vec()).take(cap_steps + 1));
     let long = stream.len() >= 256;
     if long {
         obs.class("stream:>=256");
